@@ -20,7 +20,7 @@ structure RidgeParams (R : Type) where
 def secondsInYear : R := (60.0 : R) * 60.0 * 24.0 * 365.25
 
 /-- the "which side of the transform fault" loop: first `relevant_ridge` in `0 … n-2` whose test succeeds, else `n-1`. -/
-def relevantRidge (ridges : List (List (P2 R))) (check : P2 R) : Nat → Nat → Except Err Nat
+def relevantRidge (ridges : List (List (P2 R))) (check other : P2 R) : Nat → Nat → Except Err Nat
   | 0, i => .ok i
   | fuel + 1, i =>
     if i + 1 < ridges.length then do
@@ -30,8 +30,11 @@ def relevantRidge (ridges : List (List (P2 R))) (check : P2 R) : Nat → Nat →
       let t1 ← idx rCur (rCur.length - 1)
       let ref ← idx rCur 0
       let refSide := decide ((t1.x - t0.x) * (ref.y - t0.y) - (t1.y - t0.y) * (ref.x - t0.x) < 0)
-      let chkSide := decide ((t1.x - t0.x) * (check.y - t0.y) - (t1.y - t0.y) * (check.x - t0.x) < 0)
-      if refSide == chkSide then .ok i else relevantRidge ridges check fuel (i + 1)
+      -- the description of the query (the point or the point ± 2π) closest in longitude to the transform fault
+      -- (upstream 'fix: transform fault side test ignored the 2 pi periodicity of longitude')
+      let chk := if fabs (other.x - t0.x) < fabs (check.x - t0.x) then other else check
+      let chkSide := decide ((t1.x - t0.x) * (chk.y - t0.y) - (t1.y - t0.y) * (chk.x - t0.x) < 0)
+      if refSide == chkSide then .ok i else relevantRidge ridges check other fuel (i + 1)
     else .ok i
 
 /-- state of the segment loop -/
@@ -95,7 +98,7 @@ def ridgeDistanceAndSpreading (spherical : Bool) (ridges : List (List (P2 R))) (
   let check := surfacePoint spherical natAtMinDepth
   let other := if spherical then otherPoint check else check
   let r0 ← idx ridges 0
-  let rel ← (if r0.length > 1 then relevantRidge ridges check ridges.length 0 else .ok 0)
+  let rel ← (if r0.length > 1 then relevantRidge ridges check other ridges.length 0 else .ok 0)
   let ridge ← idx ridges rel
   let vs ← idx vels rel
   let sv0 ← idx subVel 0
